@@ -317,9 +317,17 @@ theorem labelInv_step (s : Store) (op : Op) (h : LabelInv s) : LabelInv (step s 
   | deleteEdge id =>
     obtain ⟨a, b, c, d, e⟩ := deleteEdgeAt_same s id s.epoch
     exact labelInv_of_same s _ h a b c d e
-  | setNodeProp id k v => exact labelInv_of_same s _ h rfl rfl rfl rfl rfl
+  | setNodeProp id k v =>
+    simp only [step, Store.setNodeProp]
+    split
+    · exact h
+    · exact labelInv_of_same s _ h rfl rfl rfl rfl rfl
   | removeNodeProp id k => exact labelInv_of_same s _ h rfl rfl rfl rfl rfl
-  | setEdgeProp id k v => exact labelInv_of_same s _ h rfl rfl rfl rfl rfl
+  | setEdgeProp id k v =>
+    simp only [step, Store.setEdgeProp]
+    split
+    · exact h
+    · exact labelInv_of_same s _ h rfl rfl rfl rfl rfl
   | createIndex k =>
     simp only [step, Store.createIndex]
     split
@@ -378,11 +386,13 @@ theorem c14_deleted_node_not_in_label_index (b : Bool) (ops : List Op) (l id : N
   obtain ⟨ls, ps, hget, _⟩ := (c14_label_lookup_eq_live_nodes_with_label b ops l id).mp hin
   rw [hdead] at hget; simp at hget
 
-/-- W: `delete_node` (no detach) leaves the node in its neighbours' adjacency lists; and a
-property set on an id that does not exist yet is inherited by the node later created with it. -/
+/-- W: `delete_node` (no detach) leaves the node in its neighbours' adjacency lists. R (repaired):
+a property set on an id that does not exist yet is no longer inherited by the node later created
+with it, nor is one set on a deleted node kept. -/
 theorem c14_known_deviation_witnesses :
     (run true [.createNode [], .createNode [], .createEdge 0 1 0, .deleteNode 1]).outEdges 0 = [(1, 0)] ∧
-    ((run true [.setNodeProp 0 7 "I1", .createNode []]).getNodeAt 0 0) = some ([], [(7, "I1")]) := by
+    ((run true [.setNodeProp 0 7 "I1", .createNode []]).getNodeAt 0 0) = some ([], []) ∧
+    ((run true [.createNode [], .deleteNode 0, .setNodeProp 0 7 "I1"]).nodePropsOf 0) = [] := by
   decide
 
 /-- N -/
